@@ -17,6 +17,7 @@ Reference semantics (Sds/Spec/Bits.lean), for a sorted list `P` and universe `n`
 All results are `ok …`: no panic, no out-of-bounds access, no overflow in either mode.
 -/
 import Sds.Proofs.Glue2
+import Sds.Proofs.GenEqIdx
 
 namespace Sds.C02
 open Sds Outcome
@@ -233,5 +234,27 @@ example : ∃ s, Sparse.ofValues 2 10 false [0, 5, 9] = ok s :=
 example : (rankSet [0, 5, 9] 6 = 2 ∧ selectSet [0, 5, 9] 2 = some 9 ∧ selectZeroSet [0, 5, 9] 10 4 = some 6 ∧
     predSet [0, 5, 9] 8 = some (1, 5) ∧ succSet [0, 5, 9] 6 = some (2, 9) ∧ succSet [0, 5, 9] 10 = none ∧
     itemsFrom [0, 5, 9] 0 = [(0, 0), (1, 5), (2, 9)]) := by decide
+
+/-! **The position arithmetic of `sparse_vector.rs` as translated from the source on this run** (`Generated/FnsIdx.lean`):
+`split`, `combine`, `pos`, `lower_bound`, `upper_bound` and `SparseBuilder::get_buckets`, statement by statement (the two
+guarded shifts repaired after F13 included).  For every low width 1..64 the code as it is NOW is the model function the
+query theorems above are about.  `combine` is stated for `low ≤ high` (every `Pos` the queries produce) because at width
+64 the code skips a subtraction that the model performs: `GenEq.combine_ne` is the witness outside that domain. -/
+theorem sparse_position_arithmetic_as_translated_from_source (m : Mode) (s : Sparse) (i r hp univ w : Nat) (p : Pos)
+    (hw : s.width ≤ 64) (hi : i < U64) :
+    Generated.gen_SparseVector_split m s i = ok (s.split i) ∧
+    (p.low ≤ p.high → Generated.gen_SparseVector_combine m s p = s.combine m p) ∧
+    Generated.gen_SparseVector_pos m s r = s.pos m r ∧
+    Generated.gen_SparseVector_lower_bound m s hp = s.lowerBound m hp ∧
+    Generated.gen_SparseVector_upper_bound m s hp = s.upperBound m hp ∧
+    (w ≤ 64 → univ < U64 → Generated.gen_SparseBuilder_get_buckets m univ w = ok (Sparse.getBuckets univ w)) :=
+  ⟨GenEq.split_eq m s i hw (fun _ => hi), fun hp' => GenEq.combine_eq m s p (Or.inr (Or.inl hp')),
+   GenEq.pos_eq m s r, GenEq.lower_bound_eq m s hp, GenEq.upper_bound_eq m s hp,
+   fun hw' hu => GenEq.get_buckets_eq m univ w hw' hu⟩
+
+/-- the translated `get_buckets` at the two regimes of the guard (width 64 and below) -/
+example : Generated.gen_SparseBuilder_get_buckets .checked (2 ^ 64 - 1) 64 = ok 1 ∧
+    Generated.gen_SparseBuilder_get_buckets .checked 1000 3 = ok 125 ∧
+    Generated.gen_SparseBuilder_get_buckets .checked 1001 3 = ok 126 := by decide
 
 end Sds.C02
